@@ -540,7 +540,9 @@ def plan_c11(prop, tier, seed, t0):
 
 
 def plan_c13(prop, tier, seed, t0):
-    over = dict(TopicNames={T1, T2, TP2}, SubNames={S1, S2, SP2}, P2Names={TP2, SP2}, WalkSizes={0, 1, 2}, Negatives=True,
+    # three names per kind in project p1 (a deletion in the middle of the creation order needs three)
+    over = dict(TopicNames={T1, T2, "projects/p1/topics/t4", TP2}, SubNames={S1, S2, "projects/p1/subscriptions/s4", SP2},
+                P2Names={TP2, SP2}, WalkSizes={0, 1, 2}, Negatives=True,
                 OpKinds={"CreateTopic", "DeleteTopic", "CreateSub", "DeleteSub", "Walk"}, MaxOps=6, MaxMsgs=0)
 
     def extra(quick, seed):
@@ -1307,6 +1309,23 @@ def c12_mc(work, quick, violations):
         m = V.actors_mc(os.path.join(work, "mc"), "c12_pinned", configs[0][1], cap=2, backlog=1, switches={sw: False}, invariants=invs)
         if not m["error"]:
             raise V.ToolError("vacuity: the model with %s=FALSE satisfies the C12 invariants" % sw)
+    # design mutation (seed C12c): the deleting actor waits for room in the topic's mailbox without
+    # serving its own - with both mailboxes congested nobody moves any more
+    mprocs = {"st": ("stream", "s1"), "d": ("delete", "s1"), "pub": ("publish", "s1"), "pub2": ("publish", "s1"),
+              "a": ("ack", "s1"), "q": ("pull", "s1")}
+    r = V.actors_mc(os.path.join(work, "mc"), "c12_load", mprocs, cap=1, backlog=1, invariants=invs)
+    if r["stats"]:
+        total["generated"] += r["stats"]["generated"]
+        total["distinct"] += r["stats"]["distinct"]
+    runs.append({"config": "load", "stats": r["stats"], "error": r["error"]})
+    if r["error"]:
+        path = V.save_replay("C12", 0, {"kind": "model", "error": r["error"], "config": r["config"], "trace": r["trace"],
+                                        "tlc_output_tail": r["out"][-5000:]})
+        violations.append(("model DeltioActors: " + r["error"], path))
+    m = V.actors_mc(os.path.join(work, "mc"), "c12_load_mut", mprocs, cap=1, backlog=1, switches={"RemoveSendOutsideDrainLoop": True},
+                    invariants=invs)
+    if not m["error"]:
+        raise V.ToolError("vacuity: the model with RemoveSendOutsideDrainLoop=TRUE satisfies the C12 invariants")
     # liveness: consumers of a deleted subscription are eventually released
     lprocs = {"st": ("stream", "s1"), "bp": ("bpull", "s1"), "d": ("delete", "s1")}
     if not quick:
